@@ -929,17 +929,14 @@ class Gen:
             return {"f": "batch", "n": self.r.choice([1, 2, 2, 3, 5, None, 0])}
         return {"f": "finalize"}
 
-    def case(self, tier, focus=None):
+    def plain_sparse_schema(self):
+        """sparse rows with plain (number / string) values only: what coba's sparse row views (LazySparse, HashableSparse) carry"""
+        keys = self.r.shuffle(KEYS)[:self.r.randint(2, 5)]
+        return ("sparse", [(k, ("n",) if self.r.chance(0.8) else ("s",)) for k in keys], "all")
+
+    def build_stream(self, P, nint):
         r = self.r
-        sc = self.schema()
-        csc = self.schema(True)
-        nint = r.choice([1, 1, 2, 2, 3])
-        k = r.choice([1, 2, 2, 3, 3, 4])
-        kind = r.wchoice([(50, "sim"), (18, "igl"), (32, "logged")])
-        callable_class = r.chance(0.75)
-        fb_callable = r.chance(0.7)
-        mode = r.wchoice([(40, "repeat"), (45, "fresh"), (15, "mixed")])
-        force = None if r.chance(0.25) else "same"
+        sc, csc, k, kind, mode = P["sc"], P["csc"], P["k"], P["kind"], P["mode"]
         stream = []
         base = self.action_set(sc, k)
         rk = None
@@ -954,29 +951,47 @@ class Gen:
                 it["action"] = json.loads(json.dumps(acts[j]))
                 it["reward"] = self.num()
                 it["probability"] = r.choice([[1, 4], [1, 2], [1, 1], [1, 8]])
-                if t == 0:
-                    has_actions = r.chance(0.88)
-                    with_rewards = has_actions and r.chance(0.15)
-                if has_actions:
+                if P["has_actions"]:
                     it["actions"] = acts
-                    if with_rewards:
-                        rw = self.reward(sc, acts, callable_class, rk if force == "same" else None)
+                    if P["with_rewards"]:
+                        rw = self.reward(sc, acts, P["callable_class"], rk if P["force"] == "same" else None)
                         rk = rw["k"]
                         it["rewards"] = rw
             else:
                 it["actions"] = acts
-                rw = self.reward(sc, acts, callable_class, rk if force == "same" and rk not in ("list", "tuple") else None)
+                rw = self.reward(sc, acts, P["callable_class"], rk if P["force"] == "same" and rk not in ("list", "tuple") else None)
                 rk = rw["k"]
                 it["rewards"] = rw
                 if kind == "igl":
-                    it["feedbacks"] = self.reward(sc, acts, fb_callable, None if not fb_callable else r.choice(["fn", "discrete", "binary", None]))
+                    it["feedbacks"] = self.reward(sc, acts, P["fb_callable"], None if not P["fb_callable"] else r.choice(["fn", "discrete", "binary", None]))
             stream.append(it)
-        n = r.choice([1, 1, 2, 2, 3, 4])
+        return stream
+
+    def case(self, tier, focus=None):
+        r = self.r
+        # "long": 20-60 interactions with fresh action objects each, delivered lazily (objects of earlier interactions die while reading)
+        long_ = focus is None and r.chance(0.07)
+        reuse = (not long_ and r.chance(0.15)) or (long_ and r.chance(0.2))
+        plain = (long_ and r.chance(0.75)) or (not long_ and reuse and r.chance(0.35))
+        sc = self.plain_sparse_schema() if plain else self.schema()
+        csc = (self.plain_sparse_schema() if r.chance(0.5) else ("num",)) if plain else self.schema(True)
+        P = {"sc": sc, "csc": csc, "k": r.choice([1, 2, 2, 3, 3, 4]) if not long_ else r.choice([2, 3, 3, 4]),
+             "kind": r.wchoice([(50, "sim"), (18, "igl"), (32, "logged")]), "callable_class": r.chance(0.75), "fb_callable": r.chance(0.7),
+             "mode": r.wchoice([(40, "repeat"), (45, "fresh"), (15, "mixed")]) if not long_ else "fresh", "force": None if r.chance(0.25) else "same"}
+        P["has_actions"] = r.chance(0.88) or long_
+        P["with_rewards"] = P["has_actions"] and r.chance(0.15)
+        nint = r.choice([1, 1, 2, 2, 3]) if not long_ else r.randint(20, 60)
+        stream = self.build_stream(P, nint)
+        n = r.choice([1, 1, 2, 2, 3, 4]) if not long_ else r.choice([1, 1, 2, 3])
         chain, batched = [], False
-        for _ in range(n):
+        for i in range(n):
             st = self.step(batched)
             if focus and r.chance(0.5):
                 st = focus(self)
+            if (long_ or plain) and i == 0 and r.chance(0.6):
+                st = {"f": "densify", "n": r.choice([8, 30, 400, 400]), "m": r.choice(["lookup", "hashing"]), "c": r.chance(0.5), "a": True}
+                if st["m"] == "hashing":
+                    st["n"] = r.choice([400, 1000])
             chain.append(st)
             if st["f"] == "batch":
                 batched = bool(st["n"])
@@ -985,7 +1000,19 @@ class Gen:
         if batched and r.chance(0.6):
             chain.append({"f": "unbatch"})
         via = r.wchoice([(60, "filters"), (15, "pipes"), (25, "shortcuts")])
-        return {"stream": stream, "chain": chain, "via": via}
+        case = {"stream": stream, "chain": chain, "via": via}
+        if long_ or r.chance(0.3):
+            case["delivery"] = "lazy"
+        if plain and sc[0] == "sparse":
+            w = r.choice([None, "lazysparse", "hashable"])
+            if w:
+                case["wrap"] = w
+        # the same filter objects applied to one or two further sequences
+        if reuse and not long_:
+            case["more"] = [self.build_stream(P, r.choice([1, 2, 3])) for _ in range(r.choice([1, 1, 2]))]
+        elif reuse:
+            case["more"] = [self.build_stream(P, r.randint(5, 20))]
+        return case
 
 
 # ------------------------------------------------------------------ the property
@@ -1003,6 +1030,9 @@ class C10(Property):
             "sparse dict, multi-label) with pairwise-distinct actions, rewards as list/tuple/BinaryReward/DiscreteReward (list, dict, permuted, superset)/"
             "HammingReward/L1Reward/plain function, run through chains of 1-4 of Repr(16 mode pairs)/Flatten/Sparsify/Densify(lookup,hashing)/Noise/"
             "Batch/Unbatch/Finalize built as filter objects, Pipes.join or Environments shortcuts (with the implicit Finalize); "
+            "delivered as a materialised list or (30 %) lazily from a generator of fresh objects that are dropped after use, 7 % long streams of 20-60 "
+            "interactions with fresh (LazySparse / HashableSparse / dict) action objects each, 15 % with one or two further sequences pushed through "
+            "the same filter objects and judged on their own; "
             "non-trivial = some step changed the representation of the actions and there is a functional reward/feedback or a logged action to keep aligned; "
             "distinct by canonical JSON of the case")
     trusted_base = [
